@@ -78,6 +78,8 @@ fn impl_err(code: usize, k: usize) -> Error {
 /// 4 = always Borrowed of a `'static` string that lies OUTSIDE the argument (a table entry, a
 /// literal), even when the content equals the argument; 5 = Borrowed(input) when unchanged, else
 /// such a foreign `'static` string
+/// 6 / 7 = the argument AND every result are slices of one static pool in which the members
+/// overlap (first / last occurrence): a result may start inside the argument and run past its end
 /// form: 0 = &str, 1 = String, 2 = Cow::Borrowed, 3 = Cow::Owned
 pub fn check_fn(f: &[usize], k: usize, start: usize, style: u8, form: u8, uni: u8, errset: u8, st: &mut Stats) {
     ERRSET.with(|e| e.set(errset % 3));
@@ -94,7 +96,9 @@ pub fn check_fn(f: &[usize], k: usize, start: usize, style: u8, form: u8, uni: u
         if img >= k {
             return Err(impl_err(img, k));
         }
-        if style == 4 || (style == 5 && img != i) {
+        if style >= 6 {
+            Ok(Cow::Borrowed(in_pool(uni, &names[img], style == 7)))
+        } else if style == 4 || (style == 5 && img != i) {
             Ok(Cow::Borrowed(foreign(uni, img)))
         } else if img == i && style >= 1 {
             Ok(Cow::Borrowed(unsafe_same(x)))
@@ -109,6 +113,19 @@ pub fn check_fn(f: &[usize], k: usize, start: usize, style: u8, form: u8, uni: u
     fn unsafe_same(x: &str) -> &str {
         x
     }
+    /// one static string per universe that contains every member, overlapping
+    fn pool(uni: u8) -> &'static str {
+        match uni {
+            0 => "aaaaaaaaaaaa",
+            1 => "xa\u{e9}cx",
+            _ => "cabcba",
+        }
+    }
+    fn in_pool(uni: u8, member: &str, last: bool) -> &'static str {
+        let p = pool(uni);
+        let at = if last { p.rfind(member) } else { p.find(member) }.unwrap_or(0);
+        &p[at..at + member.len()]
+    }
     fn foreign(uni: u8, img: usize) -> &'static str {
         match uni {
             0 => &"aaaaaaaaaaaa"[..img],
@@ -117,12 +134,14 @@ pub fn check_fn(f: &[usize], k: usize, start: usize, style: u8, form: u8, uni: u
         }
     }
     let s0 = names[start].clone();
+    // with the pool styles the borrowed argument forms hand over a slice of the pool itself
+    let s0_ref: &str = if style >= 6 { in_pool(uni, &s0, false) } else { s0.as_str() };
     crate::watch::context(&format!("stabilize with f={:?} over universe {:?}, start {}, style {}, form {}", f, names, start, style, form));
     let got = guard(|| {
         let r = match form {
-            0 => stabilize(s0.as_str(), &closure),
+            0 => stabilize(s0_ref, &closure),
             1 => stabilize(s0.clone(), &closure),
-            2 => stabilize(Cow::Borrowed(s0.as_str()), &closure),
+            2 => stabilize(Cow::Borrowed(s0_ref), &closure),
             _ => stabilize(Cow::<str>::Owned(s0.clone()), &closure),
         };
         r.map(|c| c.into_owned()).map_err(|e| E::from_impl(&e))
@@ -317,7 +336,7 @@ pub fn run(_env: &Env, run: &Run) -> (Stats, Coverage) {
                 st.states += 1;
                 // transitions = applications the reference makes along the chain
                 for uni in 0..3u8 {
-                    for style in 0..6u8 {
+                    for style in 0..8u8 {
                         // the argument forms only matter at entry; rotate them over styles/starts
                         for form in 0..4u8 {
                             if run.tier == Tier::Quick || form == ((start as u8 + style + uni) % 4) || idx % 7 == 0 {
@@ -370,7 +389,7 @@ pub fn run(_env: &Env, run: &Run) -> (Stats, Coverage) {
     let cov = Coverage {
         rule: format!("state = (f, start, universe, Cow style, argument form) with f ranging over ALL {}^{} functions from a {}-element universe of strings (three universes: a^i; distinct characters nested at the start / middle / end of each other; members of equal byte length with different content) to that universe + two error results, instantiated with each of the three pairs of error shapes (Invalid / BadCodepoint, ProfileRuleNotApplicable / ContextRuleNotApplicable, Undefined / MissingContextRule); oracle = RFC 8264 s.7 chain semantics (first application + 3 re-applications), call log must equal the chain; plus re-entrant use f(x) = h(stabilize(x, g)) for ALL pairs (g, h) of functions on a 3/4-element universe; non-trivial = chains needing more than one application", base, k, k),
         alphabet: json!({"universe": (0..k).map(name).collect::<Vec<_>>(), "universe_1": UNIVERSE_B.iter().take(k).collect::<Vec<_>>(), "errors": ["Invalid", "BadCodepoint(0x42,7,Disallowed)"]}),
-        bound_completed: format!("all {} functions x {} starts x 3 universes x 6 Cow styles (always Owned / Borrowed when unchanged / Borrowed sub-slice at the first / last occurrence of the image in the argument: prefixes, suffixes and slices that drop bytes at both ends / Borrowed 'static strings outside the argument, always or when changed) (x 4 argument forms{})", nf, k, if run.tier == Tier::Quick { "" } else { ", rotated; all 4 on every 7th function" }),
+        bound_completed: format!("all {} functions x {} starts x 3 universes x 8 Cow styles (always Owned / Borrowed when unchanged / Borrowed sub-slice at the first / last occurrence of the image in the argument: prefixes, suffixes and slices that drop bytes at both ends / Borrowed 'static strings outside the argument, always or when changed / argument and results all slices of one static pool in which the members overlap) (x 4 argument forms{})", nf, k, if run.tier == Tier::Quick { "" } else { ", rotated; all 4 on every 7th function" }),
         exhaustive: true,
         assumptions: vec!["stabilize only observes f through its return values; a universe of k strings contains every chain shape up to length k (converging after 0..k-1 steps, every cycle length <= k, failure at every step)".into()],
         extra: json!({"universe_size": k, "functions": nf}),
